@@ -19,6 +19,11 @@ TEMPLATES = {
     "arg-too-many": ("from t | «take 1 2 3»", None),
     "syn-let-newline": ("let«\n»from t | select {a}", None),               # span ends exactly where the next line starts
     "syn-into-newline": ("from t | select {a}\ninto«\n»from u", None),
+    # errors of from_text (the payload is parsed by another parser: the reason must not be lost)
+    # (the compiler points at the format argument)
+    "fromtext-json-scalar": ("from_text format:«json» '42' | select {a}", None),
+    "fromtext-json-empty": ("from_text format:«json» '' | select {a}", None),
+    "fromtext-json-truncated": ("from_text format:«json» '\"a\": 1}]' | select {a}", None),
     "sql-regex-mssql": ("from t | filter a «~=» \"x\"", "mssql"),
     "sql-two-pipelines": ("from t | select {a} | «append (from u | select {a, c})»", None),
 }
